@@ -594,8 +594,52 @@ def r07_7(ctx):
     return r
 
 
+def r07_8(ctx):
+    r = Rule("R07.8", "the expression a v-model binds becomes the left side of a generated assignment: it is checked to be an assignment target, or an error is reported",
+             "`v-model={a + b}` prints `$event => (a + b) = $event`, which is not a program")
+    from .symprov import unconditional_diag
+    vm = C.role(ctx, "v_model_parser")
+    if vm is None:
+        r.ob("v-model parser found", None, "-", "role not resolved: not decided")
+        return r
+    r.saw(vm["path"])
+    idx = HirIndex(vm)
+    built = [n for n in idx.nodes if n.get("k") == "Struct" and (n.get("adt") or "").endswith("VModelDirective")]
+    for n in built:
+        val = {f["name"]: f["e"] for f in n["fields"]}.get("value")
+        vlo = local_of(val) if val is not None else None
+        ok = False
+        why = "no check of the bound expression precedes the construction"
+        for st in idx.preceding_stmts(n):
+            if st.get("k") != "If" or st.get("else") is not None:
+                continue
+            c = strip_transparent(st["cond"])
+            neg = c.get("k") == "Unary" and c.get("op") == "!"
+            inner = strip_transparent(c["e"]) if neg else c
+            mentions = vlo is not None and any(local_of(x) == vlo for x in walk(inner) if x.get("k") == "Path")
+            reports = any(unconditional_diag(x) for x in ([st["then"]] + list(st["then"].get("stmts", []))))
+            if not (mentions and reports):
+                continue
+            # the predicate accepts identifiers and member expressions (looked up in the local function, or a `matches!` in place)
+            pred_nodes = [inner]
+            if inner.get("k") in ("Call", "MethodCall"):
+                hb2 = ctx.facts.hir_by_path.get((vm["crate"], inner.get("callee")))
+                if hb2 is not None:
+                    pred_nodes.append(hb2["body"])
+                    r.saw(hb2["path"])
+            variants = {x.get("variant") for pn in pred_nodes for x in walk(pn) if x.get("k") in ("PTupleStruct", "PStruct") and x.get("adt") == AST + "Expr"}
+            if neg and {"Ident", "Member"} <= variants and not ({"Call", "Bin", "Lit", "Cond", "Unary", "Array", "Object", "OptChain"} & variants):
+                ok, why = True, "`if !<assignable>(value) { span_err }` with target forms %s" % sorted(v for v in variants if v)
+            else:
+                why = "the check before the construction accepts %s" % sorted(v for v in variants if v)
+        r.ob("VModelDirective is built after its value was checked to be assignable", ok, C.mloc(vm, n), why)
+    if not built:
+        r.ob("construction of VModelDirective found", None, C.mloc(vm, vm), "not found: not decided")
+    return r
+
+
 def rules(ctx):
-    out = [r07_1, r07_2, r07_3, r07_4, r07_6, r07_7]
+    out = [r07_1, r07_2, r07_3, r07_4, r07_6, r07_7, r07_8]
     if ctx.tier == "thorough":
         from . import controls
         out.append(controls.control_rule([("R07.1", r07_1, ["jsx_empty", "jsx_conversion"])]))
